@@ -981,3 +981,58 @@ brk("C03", "every MPO connected to the first bond leg", "M4", _sub(
 ok("C03", "_apply_pt_mpos with renamed temporaries", _multi(
     _sub(SD, "        new_bond_edge = pt_mpo_node[1]\n        new_sys_edge = pt_mpo_node[3]", "        next_bond_edge = pt_mpo_node[1]\n        next_sys_edge = pt_mpo_node[3]"),
     _sub(SD, "        current_edges[i] = new_bond_edge\n        current_edges[-1] = new_sys_edge\n    return current_node, current_edges\n\ndef _apply_derivative", "        current_edges[i] = next_bond_edge\n        current_edges[-1] = next_sys_edge\n    return current_node, current_edges\n\ndef _apply_derivative")))
+
+
+# ------------------------------------------------------------------ generic silence variants
+def _reformat_all(scratch: str):
+    """Every module re-printed by ast.unparse: comments, layout, line numbers,
+    parenthesisation and string quoting change; behaviour does not."""
+    import ast as _ast
+    changed = []
+    for dirpath, _, files in os.walk(os.path.join(scratch, "oqupy")):
+        for f in files:
+            if f.endswith(".py"):
+                full = os.path.join(dirpath, f)
+                with open(full) as fh:
+                    src = fh.read()
+                with open(full, "w") as fh:
+                    fh.write(_ast.unparse(_ast.parse(src)) + "\n")
+                changed.append(os.path.relpath(full, scratch))
+    return changed
+
+
+def _shift_lines(scratch: str):
+    """Forty blank lines inserted after the module docstring of every module."""
+    changed = []
+    for dirpath, _, files in os.walk(os.path.join(scratch, "oqupy")):
+        for f in files:
+            if f.endswith(".py"):
+                full = os.path.join(dirpath, f)
+                with open(full) as fh:
+                    lines = fh.read().split("\n")
+                # after the licence comment block
+                i = 0
+                while i < len(lines) and lines[i].startswith("#"):
+                    i += 1
+                lines[i:i] = [""] * 40
+                with open(full, "w") as fh:
+                    fh.write("\n".join(lines))
+                changed.append(os.path.relpath(full, scratch))
+    return changed
+
+
+for _pid in ["C02", "C03", "C04", "C05", "C06", "C07", "C08", "C09", "C10", "C11", "C12", "C13",
+             "C14", "C15", "C16", "C17", "C18", "C19", "C20"]:
+    ok(_pid, "whole package re-printed with ast.unparse (layout, comments, line numbers)", _reformat_all)
+    ok(_pid, "every module shifted by forty lines", _shift_lines)
+
+ok("C02", "selector locals renamed in Tempo._influence", _multi(
+    _sub(TE, "tmp_deg_positions", "positions_pair", count=100)))
+ok("C11", "Gibbs: remaining steps via a temporary", _sub(
+    TE, "        num_step = max(\n            0, self._parameters.n_steps - 1 - self._backend_instance.step)",
+    "        done = self._backend_instance.step\n        last = self._parameters.n_steps - 1\n        num_step = max(0, last - done)"))
+ok("C12", "square closed form with reordered terms", _sub(
+    BC, "            integral = self.eta_function(time_1 + delta, **kwargs) \\\n                       - 2.0 * self.eta_function(time_1, **kwargs) \\\n                       + self.eta_function(time_1 - delta, **kwargs)",
+    "            integral = self.eta_function(time_1 - delta, **kwargs) \\\n                       + self.eta_function(delta + time_1, **kwargs) \\\n                       - self.eta_function(time_1, **kwargs) * 2"))
+ok("C12", "T=0 eta kernel without inner parentheses", _sub(
+    BC, "                    (np.exp(-1j * w * tau) - 1) + 1j * w * tau)", "                    np.exp(-1j * tau * w) + 1j * tau * w - 1)"))
